@@ -66,6 +66,7 @@ type unitCfg struct {
 	Assumes  []string          `json:"assumptions"`
 	NoNativeCovers bool        `json:"noNativeCovers"`
 	ParallelEntries int        `json:"parallelEntries"`
+	Solver   string            `json:"solver"`
 }
 
 type propCfg struct {
@@ -74,7 +75,8 @@ type propCfg struct {
 }
 
 type checksFile struct {
-	Properties map[string]propCfg `json:"properties"`
+	Properties   map[string]propCfg `json:"properties"`
+	DefaultStubs map[string]string  `json:"defaultStubs"`
 }
 
 type runConfig struct {
@@ -282,7 +284,7 @@ func cmdCheck(args []string) int {
 	entryOnly := fs.String("entry", "", "comma-separated harness entries")
 	verbose := fs.Bool("v", false, "verbose")
 	trace := fs.Bool("trace", false, "trace instructions")
-	solver := fs.String("solver", "z3", "z3|z3-new|cvc5")
+	solver := fs.String("solver", "", "z3|z3-new|cvc5|cvc5-int (default: per unit, else z3)")
 	workers := fs.Int("workers", runtime.NumCPU(), "parallel workers")
 	smtlog := fs.String("smtlog", "", "write worker 0's SMT session to this file")
 	noReplay := fs.Bool("no-replay", false, "skip native replay (development only; findings are then inconclusive)")
@@ -308,13 +310,29 @@ func cmdCheck(args []string) int {
 		return 2
 	}
 	gSem = make(chan struct{}, *workers)
+	if *verbose || os.Getenv("VERIF_SLOWLOG") != "" {
+		slowLog = os.Stderr
+	}
 	t0 := time.Now()
-	c := &checker{id: id, tier: *tier, seed: seed, verbose: *verbose, trace: *trace, solver: *solver, workers: *workers,
+	if *solver == "" {
+		*solver = "z3"
+	} else {
+		defer func() {}()
+	}
+	c := &checker{id: id, tier: *tier, seed: seed, verbose: *verbose, trace: *trace, solver: *solver, solverForced: fs.Lookup("solver").Value.String() != "z3" || flagSet(fs, "solver"), workers: *workers,
 		smtLog: *smtlog, noReplay: *noReplay, known: loadKnown()}
 	for ui := range pc.Units {
 		u := &pc.Units[ui]
 		if *only != "" && !contains(strings.Split(*only, ","), u.Name) {
 			continue
+		}
+		if u.Stubs == nil {
+			u.Stubs = map[string]string{}
+		}
+		for k, v := range cf.DefaultStubs {
+			if _, ok := u.Stubs[k]; !ok {
+				u.Stubs[k] = v
+			}
 		}
 		c.runUnit(u, *entryOnly)
 	}
@@ -336,6 +354,7 @@ type checker struct {
 	seed     int
 	verbose, trace bool
 	solver   string
+	solverForced bool
 	workers  int
 	smtLog   string
 	noReplay bool
@@ -405,7 +424,11 @@ func (c *checker) runUnit(u *unitCfg, entryOnly string) {
 	if len(entries) == 0 {
 		return
 	}
-	rc := &runConfig{solver: c.solver, timeoutMs: tc.TimeoutMs, unwind: tc.Unwind, maxSteps: tc.MaxSteps, verbose: c.verbose,
+	solver := c.solver
+	if u.Solver != "" && !c.solverForced {
+		solver = u.Solver
+	}
+	rc := &runConfig{solver: solver, timeoutMs: tc.TimeoutMs, unwind: tc.Unwind, maxSteps: tc.MaxSteps, verbose: c.verbose,
 		trace: c.trace, smtLog: c.smtLog, inlineGo: u.InlineGo, stubs: u.Stubs, params: tc.Params, repoModule: repoModule}
 	if rc.stubs == nil {
 		rc.stubs = map[string]string{}
@@ -815,4 +838,14 @@ func cmdReplay(args []string) int {
 	}
 	fmt.Fprintln(os.Stderr, "harness not found in configuration:", rf.Harness)
 	return 2
+}
+
+func flagSet(fs *flag.FlagSet, name string) bool {
+	found := false
+	fs.Visit(func(f *flag.Flag) {
+		if f.Name == name {
+			found = true
+		}
+	})
+	return found
 }
